@@ -251,6 +251,8 @@ ID_ALPHABETS = {
     'nonascii': (lambda ax, k: ['öb%s', '日本%s', 'éè%s', 'αβ%s', 'Ж%s', 'ü%s'][k] % ('o' if ax == 'observation' else 's')),
     'long': (lambda ax, k: ('L%d' % k) + 'x' * 300 + ('o' if ax == 'observation' else 's')),
     'numeric': (lambda ax, k: '%d%s' % (10 ** k, '.5' if ax == 'observation' else '')),
+    # leading / trailing / inner blanks (in the C01 domain; not used for TSV, whose domain excludes outer blanks)
+    'padded': (lambda ax, k: [' lead%s', 'trail%s ', ' both%s ', 'in ner%s', '  two%s', 'x%s  '][k] % ('o' if ax == 'observation' else 's')),
 }
 
 
@@ -270,6 +272,17 @@ def make_md(kind, axis, n):
         return [{key: ['k__A', 'p__B%d' % (k % 2), 's__C%d' % k]} for k in range(n)]
     if kind == 'slash':
         return [{'a/b': 'v%d' % k, 'grp': 'g%d' % (k % 2)} for k in range(n)]
+    if kind == 'jagged':
+        # differing key sets per id (what add_metadata on a subset of the ids leaves behind); the first id lacks 'extra'
+        out = []
+        for k in range(n):
+            d = {'grp': 'g%d' % (k % 2)} if k % 3 != 2 else {}
+            if k >= 1:
+                d['extra'] = 'e%d' % k
+            if k % 2 == 0:
+                d['name'] = 'n%d%s' % (k, axis[0])
+            out.append(d)
+        return out
     raise ValueError(kind)
 
 
@@ -300,6 +313,10 @@ def _csr_with(dense, unsorted=False, zeros='nz'):
                           np.array(indptr, dtype=np.int32)), shape=(m, n))
 
 
+def _identity_f(v, i, md):
+    return v
+
+
 def make_table(dense, layout_='csr', zeros='nz', ids='plain', obs_md='none', samp_md='none',
                type=None, table_id=None, **kw):
     """Build a Table in a given layout through public API routes only:
@@ -314,11 +331,16 @@ def make_table(dense, layout_='csr', zeros='nz', ids='plain', obs_md='none', sam
     omd = obs_md if not isinstance(obs_md, str) else make_md(obs_md, 'observation', m)
     smd = samp_md if not isinstance(samp_md, str) else make_md(samp_md, 'sample', n)
     t = Table(mat, oid, sid, omd, smd, table_id=table_id, type=type, **kw)
-    if layout_ == 'csc':
-        if n > 0 and m > 0:
-            t.data(sid[0], axis='sample', dense=False)   # public read accessor; converts to CSC in place
-        if t._data.getformat() != 'csc':
-            raise RuntimeError('could not reach CSC layout through the public API')
+    if layout_ == 'csc' and n > 0 and m > 0:
+        # reach the CSC layout through public routes only (whichever converts in place in this tree); if none
+        # does, the layout is not reachable here and the state stays as it is
+        routes = (lambda: t.data(sid[0], axis='sample', dense=False),           # read accessor
+                  lambda: t.transform(_identity_f, axis='sample', inplace=True),   # identity transform
+                  lambda: t.filter(list(sid), axis='sample', inplace=True))        # keep-everything filter
+        for route in routes:
+            if t._data.getformat() == 'csc':
+                break
+            route()
     return t
 
 
